@@ -72,6 +72,7 @@ func (r *Reader) startEventPoller() {
 }
 
 func (r *Reader) fin(success bool) {
+	verifPoint("reader:fin")
 	atomic.StoreInt32(&r.event, int32(EvtReadFin))
 	if r.wait {
 		<-r.finChan
